@@ -1147,6 +1147,8 @@ NX_FUNCS = {
     "is_directed_acyclic_graph": M.nx_is_dag,
     "topological_sort": nx_topological_sort,
     "all_simple_paths": M.nx_all_simple_paths,
+    "edge_boundary": M.nx_edge_boundary,
+    "node_boundary": M.nx_node_boundary,
 }
 
 NX_MODEL_SET = set(NX_FUNCS.values())
